@@ -351,3 +351,6 @@ _add("C18",
 _add("C19",
      text="Also decided: a one-sided serde `from = String` on a field-less enum is evaluated against the derived writer, variant by variant.",
      technique="decision-table evaluation of From<String> over the variant names")
+_add("C19",
+     text="Also decided: the number lexer keeps only finite values (a non-finite number in a record's context is written as null and makes the log unreadable; found and repaired).",
+     technique="finiteness test between parse::<f64>() and the token")
